@@ -380,6 +380,25 @@ def r7_scheme_identity(ctx):
            "md5::compute(raw_scheme), raw_scheme.to_vec() and StringMap::from_bytes(raw_scheme) all take the argument as given" if ok else
            "the bytes hashed (%s), stored for pushing (%s) and parsed (%s) are not all the constructor's argument as given: the server pushes bytes whose md5 differs from the one it compares, so the client's next "
            "session announces a different md5 and is pushed the scheme again, for ever" % (fmt(o.of_operand(md[0].args[0]))[:30] if md else None, fmt(stored)[:40], fmt(o.of_operand(fb[0].args[0]))[:30] if fb else None))
+    # the text that is announced is the digest's own 32-digit rendering (`{:x}` of md5::Digest pads every byte to two digits): a
+    # rendering through an integer (`{:x}` of u128::from_be_bytes(..)) drops leading zeros — one scheme in sixteen announces a
+    # 31-digit md5 that no peer computing the standard form recognises, and is pushed again on every session
+    hexes, tys = [], []
+    for k_ in [body.name] + sorted(k2 for k2 in ctx.cg.reachable_from([ctx.cg.key_of(body)]) if k2.startswith("padding::factory::") and k2 != body.name):
+        b_ = ctx.P.bodies.get(k_)
+        if b_ is None:
+            continue
+        for c in b_.calls(True):
+            if (c.callee or "").endswith(("new_lower_hex", "new_upper_hex")) and c.args and c.args[0]["o"] != "const":
+                hexes.append(c)
+                tys.append(b_.lty(c.args[0]["place"]["local"]).get("s", ""))
+    if hexes:
+        okh = all("md5::Digest" in t_ for t_ in tys)
+        ctx.ob("R19.7", "PaddingFactory::new:md5-text-is-the-digest's-own-rendering", okh, hexes[0].site, "`{:x}` is applied to md5::Digest itself" if okh else
+               "the md5 text is produced by formatting `%s` in hex, not the Digest: leading zero digits are dropped, so a scheme whose md5 starts with 0 announces a shorter string than the peer computes — the "
+               "scheme is pushed again on every new session" % [t_ for t_ in tys if "md5::Digest" not in t_][0][:40])
+    else:
+        ctx.missing("R19.7", "hex formatting of the digest in PaddingFactory::new")
     g = ctx.body("R19.7", PF + "raw_scheme")
     if g is not None:
         og = ctx.origins(g)
